@@ -14,7 +14,7 @@ behaviour of the geometric predicates (is_collinear threshold, Arc::center sqrt)
 import re
 from fractions import Fraction
 
-from ..common import module_region, short, where
+from ..common import origin_mentions, module_region, short, where
 from ..exprs import simplify, closure_of, is_param, mentions, mentions_param, strip
 from ..fold import Folder, Unfoldable
 from ..mirlib import Expr, Program, expr_str
@@ -213,7 +213,7 @@ def run(run):
     for p in sorted(lookups):
         # the lookup function, its closures and the private helpers of its module that it calls (helper extraction
         # out of the four copy-pasted bodies is a plausible tidy-up)
-        bodies = module_region(prog, p, stop=r"::(is_subset_of|endorse_\w+_span)$")
+        bodies = module_region(prog, p, stop=r"::is_subset_of$")
         subset = None
         for q in bodies:
             ex = Expr(prog, q)
@@ -221,19 +221,7 @@ def run(run):
                 n = Program.callee_name(t)
                 if n.endswith("circle_map::is_subset_of"):
                     a = ex.operand(t["args"][1])
-                    subset = mentions(a, is_loc)
-                    sa = strip(a)
-                    if not subset and sa[0] == "param" and sa[1] == 1 and "{closure" in q:
-                        # a captured value: look at what the creating body captured (hoisting localize() is harmless)
-                        idx = [f for f in sa[2] if f.isdigit()]
-                        parent = q.rsplit("::{closure", 1)[0]
-                        if idx and parent in prog.bodies:
-                            pex = Expr(prog, parent)
-                            for blk in prog.bodies[parent]["blocks"]:
-                                for st in blk["stmts"]:
-                                    rv = st.get("rv") or {}
-                                    if rv.get("k") == "agg" and rv.get("closure") == q and int(idx[0]) < len(rv["ops"]):
-                                        subset = mentions(pex.operand(rv["ops"][int(idx[0])]), is_loc)
+                    subset = origin_mentions(prog, q, a, is_loc, bodies, root=p)
                 # the absolute position of the search span must play no role in the lookup
                 if POSITIONAL.search(n) and t["args"]:
                     recv = ex.operand(t["args"][0])
@@ -254,20 +242,8 @@ def run(run):
                     # legitimately capture the index list computed on the localised copy)
                     while a[0] == "call" and a[2] and re.search(r"::(collect|filter_map|filter|map|enumerate|iter|into_iter|cloned|copied|deref|rev|to_vec|clone)$", a[1]):
                         a = strip(a[2][0])
-                    loc = mentions(a, is_loc)
-                    if not loc and "{closure" in q:
-                        parent = q.rsplit("::{closure", 1)[0]
-                        caps = set()
-                        mentions(a, lambda z: z[0] == "param" and z[1] == 1 and z[2] and str(z[2][0]).isdigit() and caps.add(int(z[2][0])) and False)
-                        if parent in prog.bodies and caps:
-                            pex = Expr(prog, parent)
-                            for blk in prog.bodies[parent]["blocks"]:
-                                for st in blk["stmts"]:
-                                    rv = st.get("rv") or {}
-                                    if rv.get("k") == "agg" and rv.get("closure") == q:
-                                        for i in caps:
-                                            if i < len(rv["ops"]) and mentions(pex.operand(rv["ops"][i]), is_loc):
-                                                loc = True
+                    # ... traced through captured variables and through the parameters of extracted helpers
+                    loc = origin_mentions(prog, q, a, is_loc, bodies, root=p)
                     if loc:
                         run.bad("C06.P1", "remainder-localised/%s" % short(p), where(t),
                                 "%s builds the span of the left-over cells from the *localised* copy of the search span: the matched shape is moved back to its place by the caller, "
